@@ -24,6 +24,7 @@ var totKinds = map[string]string{
 	"mdict": "({1: 2} | {1: 3})", "tup": "(a: 1)", "etup": "()", "ctup": "(@: 0, @char: 97)", "itup": "(@: 0, @item: 1)",
 	"rel": "{|a, b| (1, 2), (3, 4)}", "set": "{1, 2}", "mixset": `{1, "a", (a: 1), [2]}`, "empty": "{}", "true": "true",
 	"fn": `(\x x)`, "nat": "//str.lower", "nested": "{{1}, {}}", "setarr": "{[1], [2, 3]}",
+	"badctup": `(@: "x", @char: 1)`, "oddname": "('a, b': 1)",
 }
 
 func totBin(op, a, b string) string {
@@ -96,6 +97,8 @@ func totUn(op, a string) string {
 		return `(\x x)(` + a + ")"
 	case "rel1":
 		return "{|a| (" + a + ")}"
+	case "relwith":
+		return "{" + a + ", (a: 1, b: 2)}"
 	}
 	panic("unknown unary form " + op)
 }
@@ -274,7 +277,7 @@ func init() {
 	handlerInit["totality"] = totInit
 	props["C10"] = func(rc *RunCtx) int {
 		rep := NewReport("C10", rc.Tier, rc.Seed, "exploration")
-		rep.Rule = "TLC enumerates the space of the Totality spec: every binary operator of the grammar (59 forms) on every ordered pair of 26 operand kinds, 34 unary / postfix / call / slice / access / literal-construction / binding forms on every kind, every tuple of 1..2 kinds (thorough: 1..3 over 13 kinds) to which the harness applies every callable member of the real safe library, and every string of up to 3 (thorough: 4, sampled) tokens over a 53-token alphabet of delimiters, operators, keywords and fragments, joined with and without spaces. Each program goes through syntax.EvaluateExpr as the CLI does, then the value is printed or the error rendered, under a 6 s budget. Violation: an uncaught panic (in evaluation, in printing the value or in rendering the error) or no outcome within the budget; the signature is (form, operand kinds, panic message class, first arr.ai frame)."
+		rep.Rule = "TLC enumerates the space of the Totality spec: every binary operator of the grammar (59 forms) on every ordered pair of 28 operand kinds, 35 unary / postfix / call / slice / access / literal-construction / binding forms on every kind, every tuple of 1..2 kinds (thorough: 1..3 over 13 kinds) to which the harness applies every callable member of the real safe library, and every string of up to 3 (thorough: 4, sampled) tokens over a 53-token alphabet of delimiters, operators, keywords and fragments, joined with and without spaces. Each program goes through syntax.EvaluateExpr as the CLI does, then the value is printed or the error rendered, under a 6 s budget. Violation: an uncaught panic (in evaluation, in printing the value or in rendering the error) or no outcome within the budget; the signature is (form, operand kinds, panic message class, first arr.ai frame)."
 		rep.Assume = []string{"6 s without an outcome on these tiny inputs counts as a hang", "library members that reach outside the process (//os, //net, //log, //deprecated) are excluded; //eval belongs to C18"}
 		dir := filepath.Join(verifRoot, ".work", fmt.Sprintf("tot-%d", os.Getpid()))
 		if err := os.MkdirAll(dir, 0o755); err != nil {
